@@ -638,7 +638,8 @@ class DCMotor(MotorBase):
         """
         maximum_electric_current = self.pwm*self.maximum_electric_current
         pwm_min = self.no_load_electric_current/self.maximum_electric_current
-        if abs(self.pwm) <= pwm_min:
+        if abs(self.pwm) <= pwm_min or \
+                abs(maximum_electric_current) <= self.no_load_electric_current:
             if pwm_min == 0:
                 self.electric_current = Current(
                     value=0,
